@@ -73,6 +73,9 @@ def gen_case(rng, tier, index):
             # two repeating streams of one dataset alive at once, advanced
             # alternately (train / validation of one training loop)
             "two_streams": rng.random() < 0.35,
+            # history on the handle: a shuffled finite pass (or a few
+            # elements of a shuffled Rust stream) before the measured stream
+            "shuffled_first": rng.random() < 0.35,
             "pattern": rng.getrandbits(30),
             "seed": rng.getrandbits(32), "sched_seed": rng.getrandbits(48),
             "policy": rng.choice(S.POLICIES),
@@ -120,7 +123,22 @@ def run_case(case):
         want = case["m"] * N + case["r"]
         random.seed(case["seed"])
         ds = env.open()
-        one_pass = [i for i, _ in dsgen.read_sync(ds, split, st["attrs"])]
+        one_pass = [i for i, _ in dsgen.read_sync(env.open(), split,
+                                                  st["attrs"])]
+        if case.get("shuffled_first"):
+            pre = "rust" if (case["seed"] & 8 and eread.supports(
+                "rust", st)) else "sync"
+            with env.fs.suspended():
+                it0 = iter(eread.make_iter(
+                    ds, pre, split, {"repeat": pre == "rust",
+                                     "shuffle": N + 7, "fp": 2}))
+                for _ in range(N + 2 if pre == "rust" else N):
+                    next(it0, None)
+                close0 = getattr(it0, "close", None)
+                if close0 is not None:
+                    close0()
+                del it0
+            probes["shuffled_pass_before_the_stream"] += 1
         if case.get("two_streams") and iface in ("rust", "sync") and \
                 len(splits) >= 1:
             other = splits[1] if len(splits) > 1 else split
@@ -281,7 +299,8 @@ def reach(agg):
                  "parallelism_above_shard_count",
                  "parallelism_not_multiple_of_shards",
                  "two_repeating_streams_interleaved",
-                 "more_than_a_thousand_epochs"):
+                 "more_than_a_thousand_epochs",
+                 "shuffled_pass_before_the_stream"):
         if not p.get(name):
             need.append(f"probe {name} never hit")
     if bootstrap.RUST_SOURCE not in ("none", "stub") and not p.get(
